@@ -37,6 +37,11 @@ BUILTIN_FRESH = set()
 # ------------------------------------------------------------------ library functions
 # the result may be the argument itself or a view sharing its memory
 LIB_ALIAS = {
+    # dtype constructors return their argument itself when it already has that dtype (NumPy 2.x: np.float32(a) is a)
+    'numpy.float64', 'numpy.float32', 'numpy.float16', 'numpy.int64', 'numpy.int32', 'numpy.int16', 'numpy.int8', 'numpy.uint8', 'numpy.uint16',
+    'numpy.uint32', 'numpy.uint64', 'numpy.complex64', 'numpy.complex128', 'numpy.bool_', 'numpy.frombuffer', 'numpy.einsum', 'numpy.histogram',
+    'numpy.diff', 'torch.einsum', 'torch.meshgrid', 'torch.cartesian_prod', 'torch.nn.functional.relu', 'torch.nn.functional.leaky_relu',
+    'torch.nn.functional.elu', 'torch.nn.functional.relu6', 'torch.nn.functional.silu', 'torch.nn.functional.gelu',
     'numpy.asarray', 'numpy.asanyarray', 'numpy.ascontiguousarray', 'numpy.squeeze', 'numpy.reshape', 'numpy.ravel',
     'numpy.transpose', 'numpy.swapaxes', 'numpy.moveaxis', 'numpy.rollaxis', 'numpy.expand_dims', 'numpy.real', 'numpy.imag',
     'numpy.atleast_1d', 'numpy.atleast_2d', 'numpy.atleast_3d', 'numpy.broadcast_to', 'numpy.fliplr', 'numpy.flipud', 'numpy.flip',
@@ -54,6 +59,10 @@ LIB_CONTAINER = {'torch.nn.ModuleList', 'torch.nn.ParameterList', 'torch.nn.Sequ
                  'torch.optim.lr_scheduler.MultiStepLR', 'itertools.product', 'itertools.chain', 'collections.OrderedDict',
                  'tqdm.tqdm', 'tqdm', 'copy.copy', 'threading.Thread', 'dispy.JobCluster', 'queue.Queue'}
 LIB_LOAD = set()
+# fresh unless called with `copy=<not True>`, then a view / the argument itself
+LIB_FRESH_UNLESS_COPY = {'numpy.array', 'numpy.nan_to_num'}
+# np.nan_to_num(x, copy=False) additionally rewrites x in place
+LIB_WRITE_UNLESS_COPY = {'numpy.nan_to_num'}
 # arguments (by position) written in place
 LIB_MUTATE = {'numpy.put': [0], 'numpy.fill_diagonal': [0], 'numpy.copyto': [0], 'numpy.place': [0], 'numpy.putmask': [0],
               'numpy.random.shuffle': [0], 'random.shuffle': [0], 'torch.nn.init.constant_': [0], 'torch.nn.init.normal_': [0],
@@ -90,17 +99,16 @@ LIB_FRESH = {
     'torch.logical_xor', 'torch.count_nonzero', 'torch.nonzero', 'torch.argwhere', 'torch.searchsorted', 'torch.bucketize', 'torch.bincount',
     'torch.lerp', 'torch.addcmul', 'torch.addcdiv', 'torch.baddbmm', 'torch.addmm', 'torch.mv', 'torch.inner', 'torch.cdist', 'torch.dist',
     'torch.det', 'torch.inverse', 'torch.pinverse', 'torch.svd', 'torch.clamp_min', 'torch.clamp_max', 'torch.clip', 'torch.heaviside',
-    'torch.fft.rfft', 'torch.fft.irfft', 'torch.fft.rfft2', 'torch.fft.irfft2', 'torch.cartesian_prod', 'torch.diag', 'torch.diag_embed',
+    'torch.fft.rfft', 'torch.fft.irfft', 'torch.fft.rfft2', 'torch.fft.irfft2', 'torch.diag', 'torch.diag_embed',
     'torch.tril', 'torch.triu', 'torch.flipud', 'torch.fliplr', 'torch.rot90', 'torch.vstack', 'torch.hstack', 'torch.dstack',
     'torch.column_stack', 'torch.mode', 'torch.kthvalue', 'torch.cummax', 'torch.cummin', 'torch.floor_divide', 'torch.true_divide',
     'torch.linalg.det', 'torch.linalg.svd', 'torch.linalg.eigh', 'torch.linalg.solve', 'torch.linalg.lstsq', 'torch.linalg.vector_norm',
     'torch.linalg.matrix_norm', 'torch.bitwise_and', 'torch.bitwise_or', 'torch.bitwise_not', 'torch.bitwise_xor', 'torch.take_along_dim',
-    'torch.nn.functional.relu6', 'torch.nn.functional.elu', 'torch.nn.functional.softplus', 'torch.nn.functional.tanh', 'torch.nn.functional.log_softmax',
+    'torch.nn.functional.softplus', 'torch.nn.functional.tanh', 'torch.nn.functional.log_softmax',
     'torch.nn.functional.cosine_similarity', 'torch.nn.functional.pixel_shuffle', 'torch.nn.functional.conv3d', 'torch.nn.functional.adaptive_avg_pool2d',
     'torch.nn.functional.huber_loss', 'torch.nn.functional.smooth_l1_loss', 'torch.nn.functional.binary_cross_entropy', 'torch.nn.functional.cross_entropy',
-    'torch.nn.functional.relu', 'torch.nn.functional.leaky_relu', 'torch.nn.functional.pad', 'torch.nn.functional.interpolate',
-    'torch.nan_to_num', 'torch.clamp', 'numpy.float64', 'numpy.float32', 'numpy.int64', 'numpy.int32', 'numpy.nan_to_num', 'numpy.conj',
-    'numpy.conjugate', 'numpy.complex64', 'numpy.complex128',
+    'torch.nn.functional.pad', 'torch.nn.functional.interpolate',
+    'torch.nan_to_num', 'torch.clamp', 'numpy.conj', 'numpy.conjugate',
     'numpy.abs', 'numpy.absolute', 'numpy.all', 'numpy.any', 'numpy.amax', 'numpy.amin', 'numpy.angle', 'numpy.arange', 'numpy.arccos',
     'numpy.arcsin', 'numpy.arctan', 'numpy.arctan2', 'numpy.argsort', 'numpy.argmax', 'numpy.argmin', 'numpy.array', 'numpy.copy',
     'numpy.cos', 'numpy.cross', 'numpy.degrees', 'numpy.dot', 'numpy.empty', 'numpy.empty_like', 'numpy.exp', 'numpy.fft.fft',
@@ -115,11 +123,11 @@ LIB_FRESH = {
     'numpy.sum', 'numpy.prod', 'numpy.cumsum', 'numpy.tan', 'numpy.vstack', 'numpy.hstack', 'numpy.stack', 'numpy.concatenate',
     'numpy.dstack', 'numpy.column_stack', 'numpy.where', 'numpy.zeros', 'numpy.zeros_like', 'numpy.full', 'numpy.full_like',
     'numpy.eye', 'numpy.identity', 'numpy.log', 'numpy.log2', 'numpy.log10', 'numpy.floor', 'numpy.ceil', 'numpy.clip',
-    'numpy.sign', 'numpy.mod', 'numpy.fmod', 'numpy.maximum', 'numpy.minimum', 'numpy.matmul', 'numpy.einsum', 'numpy.tensordot',
-    'numpy.kron', 'numpy.trace', 'numpy.unique', 'numpy.sort', 'numpy.histogram', 'numpy.interp', 'numpy.convolve', 'numpy.diff',
+    'numpy.sign', 'numpy.mod', 'numpy.fmod', 'numpy.maximum', 'numpy.minimum', 'numpy.matmul', 'numpy.tensordot',
+    'numpy.kron', 'numpy.trace', 'numpy.unique', 'numpy.sort', 'numpy.interp', 'numpy.convolve', 
     'numpy.logical_and', 'numpy.logical_or', 'numpy.logical_not', 'numpy.count_nonzero', 'numpy.deg2rad', 'numpy.rad2deg',
-    'numpy.arcsinh', 'numpy.sinc', 'numpy.hypot', 'numpy.uint8', 'numpy.uint16', 'numpy.load', 'numpy.loadtxt', 'numpy.fromfile',
-    'numpy.frombuffer', 'numpy.trapz', 'numpy.append', 'numpy.delete', 'numpy.take', 'numpy.triu', 'numpy.tril',
+    'numpy.arcsinh', 'numpy.sinc', 'numpy.hypot', 'numpy.load', 'numpy.loadtxt', 'numpy.fromfile',
+    'numpy.trapz', 'numpy.append', 'numpy.delete', 'numpy.take', 'numpy.triu', 'numpy.tril',
     'torch.abs', 'torch.acos', 'torch.asin', 'torch.atan', 'torch.add', 'torch.all', 'torch.amax', 'torch.amin', 'torch.angle',
     'torch.any', 'torch.arange', 'torch.arccos', 'torch.arcsin', 'torch.argmin', 'torch.argmax', 'torch.atan2', 'torch.bmm',
     'torch.cat', 'torch.complex', 'torch.cos', 'torch.cross', 'torch.deg2rad', 'torch.dot', 'torch.empty', 'torch.empty_like',
@@ -128,18 +136,18 @@ LIB_FRESH = {
     'torch.ceil', 'torch.fmod', 'torch.gather', 'torch.histc', 'torch.isnan', 'torch.isinf', 'torch.isfinite', 'torch.linalg.cross',
     'torch.linalg.norm', 'torch.linalg.inv', 'torch.linalg.pinv', 'torch.linspace', 'torch.load', 'torch.log', 'torch.log10',
     'torch.log2', 'torch.logical_and', 'torch.logical_or', 'torch.logical_not', 'torch.masked_select', 'torch.matmul', 'torch.max',
-    'torch.mean', 'torch.median', 'torch.meshgrid', 'torch.min', 'torch.mm', 'torch.mul', 'torch.div', 'torch.sub', 'torch.norm',
+    'torch.mean', 'torch.median', 'torch.min', 'torch.mm', 'torch.mul', 'torch.div', 'torch.sub', 'torch.norm',
     'torch.ones', 'torch.ones_like', 'torch.pow', 'torch.rad2deg', 'torch.rand', 'torch.rand_like', 'torch.randn', 'torch.randn_like',
     'torch.randint', 'torch.randperm', 'torch.normal', 'torch.roll', 'torch.round', 'torch.sigmoid', 'torch.sin', 'torch.sqrt',
     'torch.rsqrt', 'torch.stack', 'torch.std', 'torch.subtract', 'torch.sum', 'torch.prod', 'torch.cumsum', 'torch.tan', 'torch.tanh',
     'torch.tensor', 'torch.var', 'torch.where', 'torch.zeros', 'torch.zeros_like', 'torch.full', 'torch.full_like', 'torch.sign',
-    'torch.sgn', 'torch.exp2', 'torch.polar', 'torch.remainder', 'torch.maximum', 'torch.minimum', 'torch.einsum', 'torch.outer',
+    'torch.sgn', 'torch.exp2', 'torch.polar', 'torch.remainder', 'torch.maximum', 'torch.minimum', 'torch.outer',
     'torch.kron', 'torch.trace', 'torch.unique', 'torch.sort', 'torch.argsort', 'torch.topk', 'torch.softmax', 'torch.relu',
     'torch.erf', 'torch.sinc', 'torch.hypot', 'torch.square', 'torch.clone', 'torch.repeat_interleave', 'torch.tile', 'torch.index_select',
     'torch.nn.functional.conv2d', 'torch.nn.functional.conv1d', 'torch.nn.functional.conv_transpose2d', 'torch.nn.functional.avg_pool2d',
     'torch.nn.functional.max_pool2d', 'torch.nn.functional.softmax', 'torch.nn.functional.unfold', 'torch.nn.functional.fold',
     'torch.nn.functional.mse_loss', 'torch.nn.functional.l1_loss', 'torch.nn.functional.grid_sample', 'torch.nn.functional.sigmoid',
-    'torch.nn.functional.normalize', 'torch.nn.functional.one_hot', 'torch.nn.functional.gelu', 'torch.nn.functional.silu',
+    'torch.nn.functional.normalize', 'torch.nn.functional.one_hot',
     'torch.nn.AvgPool2d', 'torch.nn.BatchNorm1d', 'torch.nn.BatchNorm2d', 'torch.nn.Conv2d', 'torch.nn.Conv1d', 'torch.nn.ConvTranspose2d',
     'torch.nn.Identity', 'torch.nn.L1Loss', 'torch.nn.LeakyReLU', 'torch.nn.Linear', 'torch.nn.MSELoss', 'torch.nn.MaxPool2d',
     'torch.nn.ReLU', 'torch.nn.ReflectionPad2d', 'torch.nn.Threshold', 'torch.nn.Unflatten', 'torch.nn.Upsample', 'torch.nn.Flatten',
@@ -151,11 +159,11 @@ LIB_FRESH = {
 }
 LIB_FRESH_PREFIXES = ('plotly.', 'matplotlib.', 'torchmetrics.', 'pycvvdp.', 'pyfvvdp.', 'bpy.', 'mathutils.', 'dispy.', 'socket.',
                       'threading.', 'queue.', 'traceback.', 'plyfile.', 'finufft.', 'scipy.', 'torch.utils.')
-LIB_FRESH_KIND = {'json.load': None, 'json.loads': None, 'torch.load': None, 'numpy.meshgrid': 'container', 'torch.meshgrid': 'container',
+LIB_FRESH_KIND = {'json.load': None, 'json.loads': None, 'torch.load': None, 'numpy.meshgrid': 'container',
                   'copy.deepcopy': None, 'numpy.linalg.lstsq': 'container', 'torch.max': None, 'torch.min': None, 'torch.sort': None}
 
 # ------------------------------------------------------------------ methods (receiver of unknown static type; by name)
-METH_SCALAR = {'item', 'numel', 'dim', 'size', 'format', 'startswith', 'endswith', 'find', 'index', 'count', 'lower', 'upper',
+METH_SCALAR = {'item', 'numel', 'dim', 'size', 'format', 'startswith', 'endswith', 'find', 'lower', 'upper',
                'strip', 'rstrip', 'lstrip', 'replace', 'join', 'encode', 'decode', 'is_cuda', 'isnumeric', 'isdigit', 'nelement',
                'element_size', 'get_device', 'is_floating_point', 'is_complex', 'write', 'close', 'read', 'readline', 'flush',
                'kill', 'wait', 'poll', 'communicate', 'start', 'print_exc', 'show', 'set_description', 'set_postfix', 'zero_grad',
@@ -163,15 +171,16 @@ METH_SCALAR = {'item', 'numel', 'dim', 'size', 'format', 'startswith', 'endswith
                '__len__', 'ndimension', 'any', 'all', 'isidentifier', 'tobytes', 'tostring'}
 METH_FRESH = {'clone', 'copy', 'astype', 'tolist', 'repeat', 'max', 'min', 'sum', 'mean', 'std', 'var', 'prod', 'abs', 'sqrt', 'exp',
               'log', 'sin', 'cos', 'pow', 'clamp', 'clip', 'round', 'floor', 'ceil', 'argmax', 'argmin', 'nonzero', 'dot', 'matmul', 'mm',
-              'conj', 'conjugate', 'cumsum', 'norm', 'rsqrt', 'flip', 'roll', 'tile', 'repeat_interleave', 'masked_fill', 'index_select',
-              'gather', 'argsort', 'unique', 'inverse', 'pinverse', 'split', 'splitlines', 'readlines', 'amax', 'amin', 'angle',
-              'deepcopy', 'rglob', 'glob', 'new_zeros', 'new_ones', 'new_tensor', 'new_empty', 'new_full', 'type_as', 'sigmoid', 'tanh',
+              'cumsum', 'norm', 'rsqrt', 'flip', 'roll', 'tile', 'repeat_interleave', 'masked_fill', 'index_select',
+              'gather', 'argsort', 'unique', 'inverse', 'pinverse', 'splitlines', 'readlines', 'amax', 'amin', 'angle',
+              'deepcopy', 'rglob', 'glob', 'new_zeros', 'new_ones', 'new_tensor', 'new_empty', 'new_full', 'sigmoid', 'tanh',
               'softmax', 'relu', 'neg', 'sign', 'square', 'fmod', 'remainder', 'logical_and', 'logical_or', 'logical_not', 'eq', 'ne',
-              'lt', 'gt', 'le', 'ge', 'isnan', 'masked_select', 'pad', 'trace', 'det', 'tobytes', 'byte', 'nan_to_num', 'exp2', 'atan2',
+              'lt', 'gt', 'le', 'ge', 'isnan', 'masked_select', 'pad', 'trace', 'det', 'tobytes', 'nan_to_num', 'exp2', 'atan2',
               'acos', 'asin', 'atan', 'tan', 'log2', 'log10', 'lerp', 'cross', 'bmm', 'outer', 'fill_diagonal'}
-METH_FRESH_KIND = {'tolist': None, 'copy': None, 'split': None, 'readlines': 'container', 'splitlines': 'container', 'sort': None}
+METH_FRESH_KIND = {'tolist': None, 'copy': None, 'readlines': 'container', 'splitlines': 'container', 'sort': None}
 # the result may be the receiver itself or a view of it
-METH_ALIAS = {'reshape', 'view', 'squeeze', 'unsqueeze', 'permute', 'transpose', 'to', 'detach', 'float', 'double', 'half', 'long',
+METH_ALIAS = {'type_as', 'conj', 'conjugate', 'split', 'byte', 'short', 'char', 'bfloat16',
+              'reshape', 'view', 'squeeze', 'unsqueeze', 'permute', 'transpose', 'to', 'detach', 'float', 'double', 'half', 'long',
               'int', 'bool', 'cfloat', 'cdouble', 'contiguous', 'swapaxes', 'ravel', 'flatten', 'expand', 'expand_as', 'numpy', 'cpu',
               'cuda', 'type', 'view_as', 'narrow', 'unbind', 'chunk', 'select', 't', 'movedim', 'moveaxis', 'diagonal', 'reshape_as',
               'broadcast_to', 'unfold', 'as_strided', 'squeeze_', 'requires_grad_', 'real', 'imag', '__iter__', 'resolve_conj',
@@ -193,7 +202,10 @@ METH_NOT_INPLACE = {'__init__', '__call__', '__enter__', '__exit__'}
 METH_DEEP_MUT = {'step'}
 
 # attributes that hold torch.nn.Module objects / loss callables (set in the __init__ of odak classes): calling them
-# returns newly computed tensors or (Identity, empty Sequential) the argument itself — never the module's own state
+# returns newly computed tensors or (Identity, empty Sequential) the argument itself, not the module's own state.
+# ASSUMPTION (listed in the evidence): the call does not write its argument.  That is false for activations built with
+# inplace=True (odak's default LeakyReLU(0.2, inplace=True)); in odak these follow a convolution, so they write a fresh
+# tensor - this is observed by the recipes of the model components, not proved.
 MODULE_CALL_ATTRS = {'activation', 'conv', 'convolution', 'convolution0', 'convolution1', 'final_layer', 'forward', 'global_feature_1',
                      'global_feature_2', 'global_features_1', 'global_features_2', 'inc', 'l1', 'l2', 'l1_loss_fn', 'l2_loss_fn',
                      'l2_loss', 'loss', 'loss_func', 'loss_function', 'lpips', 'maxpool_conv', 'mlp', 'model', 'msssim', 'network',
